@@ -36,7 +36,25 @@ MOD = "vt.props.c08_bounded"
 _SUB = {"subtree_size": 3, "maxiter": 5}
 
 
+_STRONG = {"subtree_size": 6, "maxiter": 40}
+
+
 def _post_opts(name, target_size):
+    if name.endswith("+"):
+        # the same post-processing with settings strong enough to really change a 20-30 tensor tree
+        base = name[:-1]
+        sub = dict(_STRONG)
+        if base == "reconf":
+            return {"reconf_opts": sub}
+        if base == "reconf_forest":
+            return {"reconf_opts": {"forested": True, "num_trees": 2, "num_restarts": 2, "subtree_size": 6, "subtree_maxiter": 40, "parallel": False}}
+        if base == "slicing_reconf":
+            return {"slicing_reconf_opts": {"target_size": target_size, "reconf_opts": sub}}
+        if base == "slicing_reconf_forest":
+            return {"slicing_reconf_opts": {"target_size": target_size, "forested": True, "num_trees": 2, "max_repeats": 4, "parallel": False, "reconf_opts": sub}}
+        if base == "anneal":
+            return {"simulated_annealing_opts": {"tsteps": 5, "numiter": 20}}
+        raise ValueError(name)
     if name == "none":
         return {}
     if name == "slicing":
@@ -47,10 +65,14 @@ def _post_opts(name, target_size):
         return {"slicing_reconf_opts": {"target_size": target_size, "reconf_opts": dict(_SUB)}}
     if name == "anneal":
         return {"simulated_annealing_opts": {"tsteps": 2, "numiter": 2}}
+    if name == "reconf_forest":
+        return {"reconf_opts": {"forested": True, "num_trees": 2, "num_restarts": 1, "subtree_size": 3, "subtree_maxiter": 5, "parallel": False}}
+    if name == "slicing_reconf_forest":
+        return {"slicing_reconf_opts": {"target_size": target_size, "forested": True, "num_trees": 2, "max_repeats": 2, "parallel": False, "reconf_opts": dict(_SUB)}}
     raise ValueError(name)
 
 
-POSTS = ["none", "slicing", "reconf", "slicing_reconf", "anneal"]
+POSTS = ["none", "slicing", "reconf", "slicing_reconf", "anneal", "reconf_forest", "slicing_reconf_forest"]
 OBJECTIVES = ["flops", "size", "write", "combo", "limit", "combo-32", "limit-4"]
 FLAKY = "verif-flaky"
 
@@ -348,7 +370,7 @@ def run_case(case):
             # unreachable: SliceFinder legitimately raises) that is outside "whenever the search returns"; otherwise no
             # trial has a reason to fail and the search has not returned a tree for a perfectly good query.
             info["all_failed"] = True
-            if not fail and case["post"] in ("none", "reconf", "anneal"):
+            if not fail and case["post"] in ("none", "reconf", "anneal", "reconf_forest", "reconf+", "reconf_forest+", "anneal+"):
                 why = _why_trial_fails(case)
                 problems.append((f"every trial failed without a scripted failure ({why})", ""))
             return {"problems": problems, "nontrivial": False, "fired": fired, "info": info}
@@ -638,6 +660,17 @@ def build_cases(tier):
     scopes.append(("harness pool: sampled completion orders, 5-10 trials, 1-3 futures done at once, pre_dispatch 5 or 8", C, False,
                    f"seeded sample of {len(C)}"))
 
+    # E: larger networks where the post-processing really changes the tree (recorded figures must follow it)
+    E = []
+    big = [[24, 4, 2, 0, 0, 2, 3, rng.randrange(10**6)], [30, 5, 1, 0, 0, 2, 3, rng.randrange(10**6)], [20, 4, 3, 1, 0, 2, 3, rng.randrange(10**6)]]
+    for ni, net in enumerate(big if quick else big * 3):
+        for post in ("reconf+", "reconf_forest+", "slicing_reconf+", "slicing_reconf_forest+", "anneal+"):
+            for pool in ({"kind": "serial"}, {"kind": "scripted", "order": [1, 0, 2], "width": 1, "workers": 1}):
+                E.append({"net": net if quick else net[:7] + [rng.randrange(10**6)], "methods": ["greedy"], "minimize": OBJECTIVES[(ni + len(E)) % 3], "post": post, "R": 3,
+                          "pool": pool, "sseed": rng.randrange(1000), "target_size": 2**12})
+    scopes.append(("larger networks (20-30 tensors) with post-processing strong enough to change the tree", E, False,
+                   "3 networks x 5 strong post-processing sets (incl. the forested reconfigurations) x serial / scripted pool"))
+
     # D: failing trials
     D = []
     for ni, net in enumerate(netsB[: (3 if quick else 6)]):
@@ -768,7 +801,7 @@ def run_bounded(rep: Report, tier: str) -> None:
     rep.explanation += (
         "C08 bounded: real HyperOptimizer(optlib='random', seeded sampler) on rand_equation networks of 5-10 tensors; objectives "
         f"{OBJECTIVES} ('max' is not an objective name in this tree); post-processing none | slicing_opts(target_size=16) | "
-        "reconf_opts(subtree_size=3,maxiter=5) | slicing_reconf_opts | simulated_annealing_opts(tsteps=2,numiter=2). Checked after "
+        "reconf_opts(subtree_size=3,maxiter=5) | slicing_reconf_opts | simulated_annealing_opts(tsteps=2,numiter=2) | the forested variants of the two reconfigurations. Checked after "
         "every search: tree complete and of the queried contraction; len(records) <= max_repeats and #executed <= max_repeats (spy); "
         "best.score == min(scores) == min over executed trials; best flops/write/size == tree.contract_stats() == stats of a fresh "
         "rebuild from get_path()+sliced_inds; best.score == objective(fresh tree)**score_compression (1e-4); best.params == arguments "
